@@ -35,6 +35,15 @@ def check(repo, col, tier):
                                   "kirchhoff": "R-C02-kirchhoff", "sign": "R-C02-sign", "cap": "R-C02-call-roles"})
     cable.check_point_process(repo, col, "R-C02-stim")
     _stim(repo, col)
+    # the matrix structure conservation / no-overshoot rest on (shared with C01): every off-diagonal -dt*g into a row has
+    # +dt*g on that row's diagonal (zero row sum of the coupling part), branch-point rows sum to zero, and every level of
+    # every cell is solved.
+    from . import c01_solver
+    col.rule("R-C02-rowsum", "coupling part of the implicit matrices has zero row sums (contribution tables)", 10)
+    col.rule("R-C02-schedule", "every level of every cell is part of the solve", 2)
+    c01_solver._assembly_jaxley(repo, col, "R-C02-rowsum")
+    c01_solver._assembly_sparse(repo, col, "R-C02-rowsum")
+    c01_solver._merge(repo, col, "R-C02-schedule")
 
 
 def _stim(repo, col):
